@@ -329,6 +329,9 @@ class CircuitOperation(ops.Operation):
 
     @cached_property
     def _measurement_key_objs(self) -> frozenset[cirq.MeasurementKey]:
+        if isinstance(self.repetitions, INT_CLASSES) and self.repetitions == 0:
+            # Nothing is executed, so nothing is measured.
+            return frozenset()
         circuit_keys = protocols.measurement_key_objs(self.circuit)
         if circuit_keys and self.use_repetition_ids:
             self._ensure_deterministic_loop_count()
